@@ -309,25 +309,27 @@ Definition copy_parser (deep : bool) (H : heap) (p : parser) : heap * parser :=
 
 (* one trial of accepts(): new_cursor = self.copy(deepcopy_values=False) with callbacks = {};
    new_cursor.feed_token(Token(t, '')) - which for an immutable cursor copies (deep) first *)
-Definition trial (k : nat) (T : table) (H : heap) (p : parser) (t : nat) : heap * kind :=
+Definition trial (dflt : bool) (k : nat) (T : table) (H : heap) (p : parser) (t : nat) : heap * kind :=
   let (H0, p0) := copy_parser false H p in
-  let (H1, p1) := if p_imm p0 then copy_parser true H0 p0 else (H0, p0) in
+  let (H1, p1) := if p_imm p0 then copy_parser dflt H0 p0 else (H0, p0) in
   let '(H2, _, _, kd) := hifeed k T (fun _ => cb_none) H1 (p_ss p1) (p_vs p1) t 0 in
   (H2, kd).
 
-Fixpoint accepts_loop (k : nat) (T : table) (H : heap) (p : parser) (ts : list nat) : heap * list nat :=
+Fixpoint accepts_loop (dflt : bool) (k : nat) (T : table) (H : heap) (p : parser) (ts : list nat) : heap * list nat :=
   match ts with
   | [] => (H, [])
   | t :: r =>
-      let (H1, kd) := trial k T H p t in
-      let (H2, acc) := accepts_loop k T H1 p r in
+      let (H1, kd) := trial dflt k T H p t in
+      let (H2, acc) := accepts_loop dflt k T H1 p r in
       (H2, if kind_ok kd then t :: acc else acc)
   end.
 
 Definition choices (T : table) (p : parser) : list nat :=
   match p_ss p with s :: _ => terms T s | [] => [] end.
 
-Definition wstep (k : nat) (T : table) (cb : nat -> cbshape) (w : world) (o : op) : world * obs :=
+(* dflt = the default of InteractiveParser.copy(deepcopy_values=...), through which copy(p),
+   as_immutable, as_mutable and ImmutableInteractiveParser.feed_token go (regenerated: Gen/InterHoles.v) *)
+Definition wstep (dflt : bool) (k : nat) (T : table) (cb : nat -> cbshape) (w : world) (o : op) : world * obs :=
   let H := w_heap w in
   let ps := w_ps w in
   match o with
@@ -336,7 +338,7 @@ Definition wstep (k : nat) (T : table) (cb : nat -> cbshape) (w : world) (o : op
       | None => (w, ObsBad)
       | Some p =>
           if p_imm p then
-            let (H1, c) := copy_parser true H p in
+            let (H1, c) := copy_parser dflt H p in
             let '(H2, ss2, vs2, kd) := hifeed k T cb H1 (p_ss c) (p_vs c) ty id in
             ({| w_heap := H2; w_ps := ps ++ [{| p_imm := true; p_ss := ss2; p_vs := vs2 |}] |},
              ObsFeed (length ps) kd ss2)
@@ -354,21 +356,21 @@ Definition wstep (k : nat) (T : table) (cb : nat -> cbshape) (w : world) (o : op
   | OAsImm i =>
       match nth_error ps i with
       | None => (w, ObsBad)
-      | Some p => let (H1, c) := copy_parser true H p in
+      | Some p => let (H1, c) := copy_parser dflt H p in
                   ({| w_heap := H1; w_ps := ps ++ [{| p_imm := true; p_ss := p_ss c; p_vs := p_vs c |}] |},
                    ObsNew (length ps))
       end
   | OAsMut i =>
       match nth_error ps i with
       | None => (w, ObsBad)
-      | Some p => let (H1, c) := copy_parser true H p in
+      | Some p => let (H1, c) := copy_parser dflt H p in
                   ({| w_heap := H1; w_ps := ps ++ [{| p_imm := false; p_ss := p_ss c; p_vs := p_vs c |}] |},
                    ObsNew (length ps))
       end
   | OAccepts i =>
       match nth_error ps i with
       | None => (w, ObsBad)
-      | Some p => let (H1, acc) := accepts_loop k T H p (choices T p) in
+      | Some p => let (H1, acc) := accepts_loop dflt k T H p (choices T p) in
                   ({| w_heap := H1; w_ps := ps |}, ObsAccepts acc)
       end
   | OResume i toks =>
@@ -381,11 +383,11 @@ Definition wstep (k : nat) (T : table) (cb : nat -> cbshape) (w : world) (o : op
       end
   end.
 
-Fixpoint wrun (k : nat) (T : table) (cb : nat -> cbshape) (w : world) (os : list op) : world * list obs :=
+Fixpoint wrun (dflt : bool) (k : nat) (T : table) (cb : nat -> cbshape) (w : world) (os : list op) : world * list obs :=
   match os with
   | [] => (w, [])
-  | o :: r => let (w1, ob) := wstep k T cb w o in
-              let (w2, obs) := wrun k T cb w1 r in (w2, ob :: obs)
+  | o :: r => let (w1, ob) := wstep dflt k T cb w o in
+              let (w2, obs) := wrun dflt k T cb w1 r in (w2, ob :: obs)
   end.
 
 Definition world0 (T : table) : world :=
@@ -483,3 +485,45 @@ Definition preplay1 k T cb (st : list nat * list ptree) (e : event) : list nat *
 
 Definition preplay k T cb (ev : list event) : list nat * list ptree :=
   fold_left (preplay1 k T cb) ev ([start_state T], []).
+
+(* ------------------------------------------------------------------ tables given as data *)
+Fixpoint assoc {A} (k : nat) (l : list (nat * A)) : option A :=
+  match l with
+  | [] => None
+  | (k', v) :: r => if k' =? k then Some v else assoc k r
+  end.
+
+(* acts  : per state, the (terminal, action) entries in dict order
+   gotos : per state, the (rule-origin number, target state) entries
+   rules : (origin number, len(expansion)) by rule number *)
+Definition mk_table (acts : list (nat * list (nat * act))) (gotos : list (nat * list (nat * nat)))
+           (rules : list (nat * nat)) (s0 e0 : nat) : table :=
+  {| action := fun s t => match assoc s acts with Some row => assoc t row | None => None end;
+     goto := fun s a => match assoc s gotos with Some row => assoc a row | None => None end;
+     terms := fun s => match assoc s acts with Some row => map fst row | None => [] end;
+     rlhs := fun r => fst (nth r rules (0, 0));
+     rarity := fun r => snd (nth r rules (0, 0));
+     start_state := s0;
+     end_state := e0 |}.
+
+(* callbacks given as data: (name number, ExpandSingleChild?, ChildFilterLALR (to_include, append_none)?) *)
+Definition cbdata := (nat * bool * option (list (nat * bool * nat) * nat))%type.
+
+Definition mk_cb (rules : list (nat * nat)) (cbs : list cbdata) (r : nat) : cbshape :=
+  match nth_error cbs r with
+  | None => cb_none
+  | Some (d, e1, f) =>
+      {| cb_data := d; cb_expand1 := e1;
+         cb_filter := match f with
+                      | None => None
+                      | Some (inc, app) => Some (dirs_of 0 (snd (nth r rules (0, 0))) inc, app)
+                      end |}
+  end.
+
+Fixpoint cbs_wf (rules : list (nat * nat)) (cbs : list cbdata) : bool :=
+  match rules, cbs with
+  | [], [] => true
+  | (_, ar) :: rules', (_, _, f) :: cbs' =>
+      match f with None => true | Some (inc, _) => inc_wf 0 ar inc end && cbs_wf rules' cbs'
+  | _, _ => false
+  end.
